@@ -424,6 +424,13 @@ partial def emitError : M Unit := do
     emitTask t.tid
     let t ← getTask t.tid
     if t.state.isError then
+      -- no catch of this task took the error: what is still open beneath it is closed with it
+      for x in (← get).p.tasks do
+        let xt ← getTask x.tid
+        if !xt.state.isCompleted && xt.tid != t.tid then
+          if (ancestorsOf (← get).p xt).any (·.tid == t.tid) then
+            setState xt.tid .skipped
+            emitTask xt.tid
       match t.err with
       | none => pure ()
       | some e =>
